@@ -2694,7 +2694,13 @@ fn nested_join_pred(rng: &mut Rng, first: &str, later: &str) -> String {
     let c1 = rng.pick(EQ_CONSTS).0;
     let c2 = rng.pick(EQ_CONSTS).0;
     let read = format!("{}.{}", b, pb);
-    let value = match rng.below(10) {
+    let (e1, e2) = *rng.pick(&[("1", "2"), ("2", "1"), ("true", "false"), ("false", "true"), ("'a'", "1")]);
+    let value = match rng.below(14) {
+        12 => format!("CASE WHEN EXISTS {{ MATCH ({})-[:R]->() RETURN 1 AS one }} THEN {} ELSE {} END", b, e1, e2),
+        13 => format!("CASE WHEN EXISTS {{ MATCH ({}) WHERE {} IS NULL RETURN 1 AS one }} THEN {} ELSE {} END", b, read, e1, e2),
+        // the other alias read only inside an EXISTS subquery (which no expression walker of the planner enters)
+        10 => format!("CASE WHEN EXISTS {{ MATCH ({})-[:R]->() RETURN 1 AS one }} THEN {} ELSE {} END", b, c1, c2),
+        11 => format!("CASE WHEN EXISTS {{ MATCH ({}) WHERE {} IS NOT NULL RETURN 1 AS one }} THEN {} ELSE {} END", b, read, c1, c2),
         0 => format!("CASE WHEN {} IS NULL THEN {} ELSE {} END", read, c1, c2),
         1 => format!("CASE WHEN {} = {} THEN {} ELSE {} END", read, c1, c2, c1),
         2 => format!("CASE WHEN {} > 1 THEN {} ELSE {} END", read, c1, c2),
